@@ -28,7 +28,9 @@ CHUNK = 2500
 RULE = ("one observation per terminal state of MC_Crowsetta (label_to_tags option table x 4 label modes run directly and through "
         "segment/bbox import; label_from_tags / label_from_tag option table; import lattice of segments, boxes, sequences, "
         "annotations x samplerate x time expansion; export of every catalogue geometry and of event lists x cast x ignore_errors x "
-        "raise_on_time_geometries x samplerate; round trips) plus random cases on larger lattices; non-trivial = at least one "
+        "raise_on_time_geometries x samplerate; round trips, also import with term_mapping / export with select_by_key; export of "
+        "intervals at non-binary decimal times x rates incl. 44100; tag lists mixing key-built tags with hand-built and vocabulary "
+        "terms of the same label) plus random cases on larger lattices; non-trivial = at least one "
         "element/event, a non-empty label (l2t), a non-empty tag list (t2l)")
 TRUSTED_BASE = ["checks/c10.py + vt/geom.py (build crowsetta/soundevent objects on dyadic units, call the conversion, read back "
                 "coordinates as exact rationals + limbs, tags as [key, value], exception class names)"]
@@ -39,6 +41,9 @@ ASSUMPTIONS = ["exact cases use dyadic units (times k/8, k/64, k/1024 s; frequen
                "Lattice!LApproxRat (|v - p/q| < 2.4e-10/q)",
                "domain facts of crowsetta (BBox needs onset < offset, low < high; a Sequence holds segments with the same "
                "seconds/samples presence) restrict the generator or fall under ErrorPolicy; they are not judged",
+               "sample indices of arbitrary doubles (kind xs): the doubles passed are shipped as exact limb numbers and floor(t x sr) is "
+               "computed exactly in TLA+ (Lattice!LMulMag); floor + 1 is accepted only when the exact product is within 2^-32 below an "
+               "integer (the binary product can round up to it; half an ulp <= 2^-34 for products < 2^20)",
                "adjust_time_expansion is left at its default (True); the statement does not mention the switch"]
 
 PATH = "a.wav"
@@ -147,6 +152,23 @@ def lo_kwargs(lo, direct=False):
     return kw
 
 
+_VOCAB = None
+
+
+def mk_tag(t):
+    """<<key, value, flavour>> -> Tag.  'k': Tag(key=...); 'h': hand-built Term with that label; 'v': the soundevent.terms term with that label."""
+    global _VOCAB
+    k, v, fl = t
+    if fl == "k":
+        return data.Tag(key=k, value=v)
+    if fl == "h":
+        return data.Tag(term=data.Term(label=k, name="custom:" + k.replace(" ", "_"), definition="a hand-built term"), value=v)
+    if _VOCAB is None:
+        from soundevent import terms
+        _VOCAB = {x.label: x for x in (getattr(terms, n) for n in dir(terms)) if isinstance(x, data.Term)}
+    return data.Tag(term=_VOCAB[k], value=v)
+
+
 def _label_out(raised, label):
     if raised == "" and not isinstance(label, str):
         return {"raised": "", "label": "not-a-string:" + repr(label)[:40]}
@@ -154,13 +176,13 @@ def _label_out(raised, label):
 
 
 def run_t2l(case):
-    tags = [data.Tag(key=k, value=v) for k, v in case["tags"]]
+    tags = [mk_tag(t) for t in case["tags"]]
     return _label_out(*observe(lambda: cio.label_from_tags(tags, **lo_kwargs(case["lo"]))))
 
 
 def run_t1l(case):
-    k, v = case["tag"]
-    return _label_out(*observe(lambda: cio.label_from_tag(data.Tag(key=k, value=v), **lo_kwargs(case["lo"], direct=True))))
+    tag = mk_tag(case["tag"])
+    return _label_out(*observe(lambda: cio.label_from_tag(tag, **lo_kwargs(case["lo"], direct=True))))
 
 
 # ------------------------------------------------------------------ crowsetta elements from lattice elements
@@ -264,11 +286,36 @@ def run_rt(case):
     rec = _rec(case["sr"])
     obj = mk_container(case["els"], case)
     ikw = {"key": case["ikey"][0]} if case["ikey"] else {}
-    raised, items = observe(lambda: do_export(do_import(obj, case, rec, **ikw), case, rec, value_only=True))
+    ekw = {"value_only": True}
+    if case.get("sel"):
+        key = case["sel"][0]
+        term = data.Term(label=key, name="custom:" + key, definition="a hand-built term")
+        ikw["term_mapping"] = {el["label"]: term for el in case["els"]}
+        ekw["select_by_key"] = key
+    raised, items = observe(lambda: do_export(do_import(obj, case, rec, **ikw), case, rec, **ekw))
     return {"raised": raised, "items": items if raised == "" else []}
 
 
-RUN = {"l2t": run_l2t, "t2l": run_t2l, "t1l": run_t1l, "imp": run_imp, "exp": run_exp, "rt": run_rt}
+def run_xs(case):
+    """Export an interval whose times are arbitrary doubles; ship the doubles passed and the exported ones as limbs."""
+    rec = _rec(case["sr"])
+    if "thex" in case:
+        t1, t2 = (float.fromhex(h) for h in case["thex"])
+    else:
+        t1, t2 = (k / den for k, den in case["t"])
+    ann = data.SoundEventAnnotation(sound_event=data.SoundEvent(recording=rec, geometry=data.TimeInterval(coordinates=[t1, t2])),
+                                    tags=[data.Tag(key="ev", value="1")])
+    if case["via"] == "segment":
+        raised, seg = observe(lambda: cio.segment_from_annotation(ann))
+    else:
+        raised, seg = observe(lambda: cio.sequence_from_annotations([ann]).segments[0])
+    if raised:
+        return {"raised": raised, "tl": [], "ol": [], "smp": []}
+    return {"raised": "", "tl": [limbs(t1), limbs(t2)], "ol": [limbs(seg.onset_s), limbs(seg.offset_s)],
+            "smp": [int(seg.onset_sample), int(seg.offset_sample)]}
+
+
+RUN = {"xs": run_xs, "l2t": run_l2t, "t2l": run_t2l, "t1l": run_t1l, "imp": run_imp, "exp": run_exp, "rt": run_rt}
 
 
 def execute(case):
@@ -349,7 +396,21 @@ def random_cases(rng, tier):
             frq = _interval(rng, sr * fd // 2, False) if box else []
             els.append({"sec": sec, "smp": smp, "frq": frq, "label": rng.choice(["L%d" % (j + 1), "__empty__", "a b", "x:y"])})
         yield {"kind": "rt", "via": via, "sr": sr, "te": [1, 1], "tden": td, "fden": fd, "exact": True, "cast": False, "ign": False,
-               "rtg": True, "vo": True, "ikey": rng.choice([[], ["K"]]), "els": els}
+               "rtg": True, "vo": True, "ikey": rng.choice([[], ["K"]]), "sel": rng.choice([[], [], ["TM"]]), "els": els}
+    rates = [(8, [8, 1]), (100, [100, 1]), (1000, [1000, 1]), (8000, [8000, 1]), (22050, [22050, 1]), (44100, [210, 210]),
+             (48000, [480, 100]), (96000, [960, 100]), (12345, [12345, 1])]
+    for _ in range(n):
+        # ---- sample indices of arbitrary doubles: products just below / on / just above an integer, and plain decimals
+        sr, srf = rng.choice(rates)
+
+        def near():
+            if rng.random() < 0.3:
+                return max(0.001, round(rng.uniform(0.001, 9.0), rng.choice([1, 2, 3, 6])))
+            k = rng.randrange(1, min(9 * sr, 900000))
+            d = rng.choice([0.0, 1e-9, -1e-9, 1e-8, 1e-7, 3e-7, 4.9e-7, 6e-7, 1e-6, 1e-5, 0.25, 0.5])
+            return max(0.001, (k - d) / sr)
+        a, b = sorted([near(), near()])
+        yield {"kind": "xs", "via": rng.choice(["segment", "sequence"]), "sr": sr, "srf": srf, "thex": [a.hex(), b.hex()]}
 
 
 def nontrivial(o):
@@ -363,6 +424,8 @@ def nontrivial(o):
         return c["to"]["label"] not in (["__empty__"] if not c["to"]["empties"] else c["to"]["empties"][0])
     if k == "t2l":
         return len(c["tags"]) > 0
+    if k == "xs":
+        return True
     return True
 
 
@@ -378,7 +441,8 @@ MANIFEST = {
              "whose allowed outcomes are the union of the docstring reading and the property-summary reading. MC_Crowsetta.tla runs the "
              "conversions as a state machine (per element: seconds-or-samples, adjust once; per event: convert / skip / raise; the "
              "cascades as implemented) and TLC checks Impl => Req plus the laws (te exactly once on every path, export o import = "
-             "identity for te = 1 and value-only labels, cascade table total and deterministic, index wraps, kept events in order) on "
+             "identity for te = 1 and value-only labels, cascade table total and deterministic, index wraps, kept events in order, "
+             "limb product = integer floor) on "
              "every case of the bounded universe; each case is then executed on the real conversion functions (directly and through "
              "segment / bbox / sequence / annotation) and TLC validates the recorded observations clause by clause. Bounded-exhaustive on "
              "dyadic lattices, plus seeded random cases on larger lattices (incl. te = 10, 3, 5/2 with limb-number comparison)."),
